@@ -7,9 +7,9 @@ CONSTANTS
   KVals <- K3
   Orders <- OrdOne
   FullOrder = TRUE
-  Points <- Pts1
+  Points <- Pts13
   Feeds <- NoFeeds
-  PhaseMaps <- Ph2
+  PhaseMaps <- Ph1
   ReKVals <- ReK1
   MaxHist = 2
   NameMap <- NmId
